@@ -1,7 +1,7 @@
 (* PropC02.v — C02: a crash at any instant recovers to an atomic, consistent prefix (stream level: WAL = zero-prefilled stream, crash = any byte prefix of the entry in flight; every block size and checksum function). crc_collision P = a frame and its own zero-completed prefix have the same checksum.
    Statements only; each theorem is closed by `exact <lemma>`; proofs live in the imported files. *)
 From Coq Require Import Lia NArith List.
-From MRL Require Import Bytes Params Frame Driver StreamProofs TornProofs GhostLog.
+From MRL Require Import Bytes Params Names Frame Record Mem Rolling Log Driver Hist StreamProofs TornProofs GhostLog RestartInv OpenReplay TornFile CrashTrace.
 
 (* all earlier entries are delivered, then nothing, or one Corruption, or the in-flight entry itself - the latter only if the missing bytes are all zero (the disk equals the fully written entry), or another entry only under a CRC collision *)
 Theorem C02_torn_read :
@@ -117,8 +117,152 @@ Print Assumptions C02_torn_then_append.
 
 (* one call only appends entries to the log (the in-flight call is the last entry group) *)
 Theorem C02_one_call_one_logged_suffix :
-    forall (P : params) (st : Log.state) (L : glog) (o : Log.op) (tick : bool),
-    exists es : list (N * Record.entry), snd (fst (gstep P (st, L) o tick)) = L ++ es.
+    forall (P : params) (st : state) (L : glog) (o : op) (tick : bool),
+    exists es : list (N * entry), snd (fst (gstep P (st, L) o tick)) = L ++ es.
 Proof. exact gstep_log_extends. Qed.
 Print Assumptions C02_one_call_one_logged_suffix.
+
+(* the I/O trace of one call under a flush-per-operation policy: writes of exactly the bytes of the logged entries at the cursor, roll-over groups only at file boundaries, then flush/sync, then unlinks of a prefix of the files, then the policy's persist *)
+Theorem C02_call_trace :
+    forall P : params,
+    7 < BS P ->
+    BS P <= 65542 ->
+    1 <= NB P ->
+    (forall (t : byte) (p : bytes), crcf P t p < 2 ^ 32) ->
+    L_GC P = false ->
+    forall (st : state) (G : ghost) (a : bool) (o : op) (tick : bool) (st' : state) (out : outcome),
+    Inv P st G ->
+    w_pending (s_wr st) = [] ->
+    s_pol st = PAlways a ->
+    RestartWrite.stream_bound P G (map snd (step_log P st o)) ->
+    step P st o tick = (st', out) ->
+    (forall e : ioerr, out <> OutIo e) ->
+    let w := s_wr st in
+    exists evs : list event,
+    c_ev (w_ctx (s_wr st')) = rev evs ++ c_ev (w_ctx w) /\
+    c_fs (w_ctx (s_wr st')) = fold_left apply_event evs (c_fs (w_ctx w)) /\
+    call_trace P (FileStream.wlo w) (w_file w) (w_off w) (call_bytes P st G o)
+    (w_file (s_wr st')) (w_off (s_wr st')) evs /\ w_pending (s_wr st') = [].
+Proof. exact step_call_trace. Qed.
+Print Assumptions C02_call_trace.
+
+(* EVERY crash image of a call (cut before any event, or after any number of bytes of a write): a contiguous file set, only the last created file possibly empty, and the stream = the old stream + a byte prefix of what the call writes + zeros; files are unlinked only once everything is written *)
+Theorem C02_crash_image_shape :
+    forall P : params,
+    7 < BS P ->
+    BS P <= 65542 ->
+    1 <= NB P ->
+    (forall (t : byte) (p : bytes), crcf P t p < 2 ^ 32) ->
+    L_GC P = false ->
+    forall (st : state) (G : ghost) (a : bool) (o : op) (tick : bool) (st' : state) (out : outcome),
+    Inv P st G ->
+    w_pending (s_wr st) = [] ->
+    s_pol st = PAlways a ->
+    op_wf_strict (s_qs st) o ->
+    RestartWrite.stream_bound P G (map snd (step_log P st o)) ->
+    step P st o tick = (st', out) ->
+    (forall e : ioerr, out <> OutIo e) ->
+    let w := s_wr st in
+    let fs0 := c_fs (w_ctx w) in
+    let lo := FileStream.wlo w in
+    let T := gh_T P G in
+    let c0 := call_cursor P st G in
+    let NEW := call_bytes P st G o in
+    exists evs : list event,
+    c_ev (w_ctx (s_wr st')) = rev evs ++ c_ev (w_ctx w) /\
+    c_fs (w_ctx (s_wr st')) = fold_left apply_event evs fs0 /\
+    call_trace P lo (w_file w) (w_off w) NEW (w_file (s_wr st')) (w_off (s_wr st')) evs /\
+    (forall cut k : N,
+    let pe := crash_events evs cut k in
+    let img := fold_left apply_event pe fs0 in
+    let j := lenN (ev_data pe) in
+    exists (nu : nat) (hi : N) (short : bool) (z : N),
+    let lo' := lo + N.of_nat nu in
+    lo' <= hi /\
+    w_file w <= hi /\
+    hi <= w_file (s_wr st') /\
+    hi <= U64_MAX /\
+    GcProofs.nodup_keys img /\
+    GcProofs.dir_of img (nfiles lo' hi) /\
+    list_wal_numbers img = nfiles lo' hi /\
+    (forall n : N,
+    lo' <= n <= hi ->
+    exists b : bytes,
+    fs_get img (filename n) = Some (FFile b) /\
+    lenN b = (if short && (n =? hi) then 0 else FILE_BYTES P)) /\
+    (short = true -> w_file w < hi /\ nu = 0%nat) /\
+    ev_data pe = takeN j NEW /\
+    j <= lenN NEW /\
+    FileStream.stream_of (zext P img hi) (nfiles lo' hi) =
+    dropN ((lo' - gh_base G) * FILE_BYTES P) (T ++ zerosN (c0 - lenN T) ++ takeN j NEW ++ zerosN z) /\
+    c0 + j + z = (hi + 1 - gh_base G) * FILE_BYTES P /\ (nu <> 0%nat -> j = lenN NEW)).
+Proof. exact crash_image_shape. Qed.
+Print Assumptions C02_crash_image_shape.
+
+(* open on such a directory (short last file included): replays the kept entries and a prefix of the entries in flight - those completely written, plus the next one only if its missing bytes are zero - and nothing else; the writer resumes where only zeros follow (or at most 6 bytes of a torn header that its next header overwrites) *)
+Theorem C02_open_torn :
+    forall P : params,
+    7 < BS P ->
+    BS P <= 65542 ->
+    1 <= NB P ->
+    (forall (t : byte) (p : bytes), crcf P t p < 2 ^ 32) ->
+    no_zero_collision P ->
+    forall (fs : fsT) (lo : N) (n : nat),
+    list_wal_numbers fs = GcProofs.iota lo (S n) ->
+    (forall f : N,
+    In f (GcProofs.iota lo (S n)) ->
+    exists b : bytes,
+    fs_get fs (filename f) = Some (FFile b) /\
+    lenN b <= FILE_BYTES P /\ (f <> lo + N.of_nat n -> lenN b = FILE_BYTES P)) ->
+    forall base : N,
+    base <= lo ->
+    forall (E_all X : list entry) (T : bytes) (c0 j z : N) (pol : policy) (hint : list bytes),
+    L_IO P = false ->
+    L_SHORT P = false ->
+    Forall RecordProofs.wf_entry E_all ->
+    Forall RecordProofs.wf_entry X ->
+    encs_rel P 0 (map entry_ser E_all) T ->
+    lenN T <= c0 ->
+    c0 <= ResyncProofs.first_frame_pos P (lenN T) ->
+    (lo - base) * FILE_BYTES P <= c0 ->
+    j <= lenN (ResyncProofs.encs_of P c0 (map entry_ser X)) ->
+    let S_all :=
+    T ++ zerosN (c0 - lenN T) ++ takeN j (ResyncProofs.encs_of P c0 (map entry_ser X)) ++ zerosN z in
+    FileStream.stream_of (fs_ext P fs lo n) (GcProofs.iota lo (S n)) =
+    dropN ((lo - base) * FILE_BYTES P) S_all ->
+    lenN S_all = (lo + N.of_nat n - base + 1) * FILE_BYTES P ->
+    exists (w0 : rwriter) (tags : list N) (E_pre E_suf X1 Xr Xd : list entry)
+    (pf : N),
+    E_all = E_pre ++ E_suf /\
+    map entry_ser E_pre =
+    ResyncProofs.skipped_before P ((lo - base) * FILE_BYTES P) 0 (map entry_ser E_all) /\
+    map entry_ser E_suf =
+    ResyncProofs.delivered_from P ((lo - base) * FILE_BYTES P) 0 (map entry_ser E_all) /\
+    X = X1 ++ Xr /\
+    lenN (ResyncProofs.encs_of P c0 (map entry_ser X1)) <= j /\
+    match Xr with
+    | [] => j = lenN (ResyncProofs.encs_of P c0 (map entry_ser X))
+    | x :: _ => j < lenN (ResyncProofs.encs_of P c0 (map entry_ser (X1 ++ [x])))
+    end /\
+    (Xd = X1 \/
+    (exists (x : entry) (X2 : list entry),
+    Xr = x :: X2 /\
+    Xd = X1 ++ [x] /\
+    all_zero (dropN j (ResyncProofs.encs_of P c0 (map entry_ser (X1 ++ [x])))) = true)) /\
+    fspec P lo n base (fs_ext P fs lo n) w0 tags
+    (ResyncProofs.starts P
+    (ResyncProofs.cursor_after P 0
+    (ResyncProofs.skipped_before P ((lo - base) * FILE_BYTES P) 0 (map entry_ser E_all)))
+    (map entry_ser (E_suf ++ Xd))) pf /\
+    lenN T <= pf /\
+    (Xd <> [] -> c0 + lenN (ResyncProofs.encs_of P c0 (map entry_ser Xd)) <= pf) /\
+    pf <= lenN S_all /\
+    (forall m : N, c0 + j <= m * BS P -> (lo - base) * FILE_BYTES P <= m * BS P -> pf <= m * BS P) /\
+    resume_ok P S_all pf /\
+    match replay_entries [] (combine tags (E_suf ++ Xd)) with
+    | Some qs => open P fs None pol hint = open_finish P w0 qs pol hint
+    | None => exists c' : ioctx, open P fs None pol hint = OpenCorruption c'
+    end.
+Proof. exact open_torn. Qed.
+Print Assumptions C02_open_torn.
 
